@@ -684,6 +684,30 @@ def f{k}(a: int, b: int, xs: List[int], s: str, o: Optional[str]) -> int:
 '''
 
 
+GEN_FLAG_LOOP = '''
+def w{k}(xs: List[int]) -> int:
+    n = True
+    while n:
+        if len(xs) {cmp1} {c1}:
+            xs.append(1)
+            continue
+        n = False
+    return len(xs)
+
+def v{k}(a: int, xs: List[int]) -> int:
+    ok = a {cmp1} {c1}
+    while ok:
+        a += 1
+        if a in xs:
+            ok = a {cmp2} {c2}
+            continue
+        elif a {cmp2} 100:
+            break
+        ok = not ok
+    return a
+'''
+
+
 def gen_pass_programs(rng: vlib.Rng, n: int) -> list[dict]:
     items = []
     for k in range(n):
@@ -693,6 +717,8 @@ def gen_pass_programs(rng: vlib.Rng, n: int) -> list[dict]:
                                            cmp1=rng.choice(["<", "<=", "==", "!=", ">", ">="]), cmp2=rng.choice(["<", "<=", "==", "!=", ">", ">="]),
                                            bop=rng.choice(["and", "or"]), bop2=rng.choice(["and", "or"]),
                                            c1=rng.choice([0, 1, 7, 2 ** 31, 2 ** 62, 2 ** 64]), c2=rng.choice([3, 10, 2 ** 40]))
+        txt += GEN_FLAG_LOOP.format(k=k, cmp1=rng.choice(["<", "<=", "!="]), cmp2=rng.choice(["<", ">", "=="]),
+                                    c1=rng.choice([3, 5]), c2=rng.choice([7, 50]))
         items.append({"kind": "gen", "name": f"gen{k}", "text": txt})
     return items
 
@@ -888,7 +914,16 @@ def pass_stage(ctx: vlib.Ctx, exe: str | None, tmp: str) -> None:
         if o != "1":
             rejected += 1
             rej_kind[p["kind"]] = rej_kind.get(p["kind"], 0) + 1
-            if rej_kind[p["kind"]] <= 3:
+            labels_after = {b[0] for b in p["after"]["blocks"]}
+            dangling = [t for b in p["after"]["blocks"] if b[3] for t in term_succs(b[3]) if t not in labels_after]
+            if p["kind"] == "flagelim" and dangling:
+                ctx.violation("flagelim-jump-to-deleted-branch-block",
+                              f"flag elimination deletes a flag-branch block that is also reached without an assignment to the flag "
+                              f"(e.g. by `continue` in `while flag:`), leaving a jump to a block that no longer exists; emitted C does not "
+                              f"compile (`goto CPyL-1`): {p['name']}",
+                              {"kind": "pass", "pass": p["kind"], "function": p["name"], "before": p["before"], "after": p["after"],
+                               "driver_line": ln[:20000]})
+            elif rej_kind[p["kind"]] <= 3:
                 ctx.violation(f"pass:{p['kind']}:{p['name']}",
                               f"verified validator rejects the output of {p['kind']} on {p['name']} ({o}): the transformed function "
                               f"is not provably equivalent to its input",
